@@ -67,6 +67,9 @@ class ContinueExc(Exception):
 
 LabelSort = z3.DeclareSort("Label")
 
+from . import aseq as AQ        # noqa: E402  (axiomatic sequences; needs nothing from this module)
+from .aseq import s_len, s_at, s_concat, s_snoc, s_extract, s_contains, s_eq, s_empty, is_aseq   # noqa: E402,F401
+
 
 class T:
     """type descriptors for fresh symbolic values"""
@@ -91,6 +94,15 @@ def RecT(name):
 
 def SeqT(elem, **kw):
     return T("seq", elem, **kw)
+
+
+def SetT(elem, **kw):
+    return T("set", elem, **kw)
+
+
+def MapT(key, val, **kw):
+    """finite map key -> val (python dict with symbolic contents)"""
+    return T("map", key, val, **kw)
 
 
 def TupleT(*elems):
@@ -125,7 +137,7 @@ class Rec:
         return f"<{self.cls.name} {self.f}>"
 
     def snapshot(self):
-        return Rec(self.cls, {k: (v.snapshot() if isinstance(v, (Rec, PyList, SeqV)) else v) for k, v in self.f.items()})
+        return Rec(self.cls, {k: (v.snapshot() if hasattr(v, "snapshot") else v) for k, v in self.f.items()})
 
 
 class PyList:
@@ -133,7 +145,7 @@ class PyList:
         self.items = list(items)
 
     def snapshot(self):
-        return PyList([v.snapshot() if isinstance(v, (Rec, PyList, SeqV)) else v for v in self.items])
+        return PyList([v.snapshot() if hasattr(v, "snapshot") else v for v in self.items])
 
     def __repr__(self):
         return f"PyList({self.items})"
@@ -150,6 +162,32 @@ class SeqV:
 
     def __repr__(self):
         return f"SeqV({self.term})"
+
+
+class SetV:
+    """finite set of symbolic contents: a z3 array elem -> Bool (mutable python object: .term is re-assigned by update/add)"""
+
+    def __init__(self, term, elem):
+        self.term, self.elem = term, elem
+
+    def snapshot(self):
+        return SetV(self.term, self.elem)
+
+    def __repr__(self):
+        return f"SetV({self.term})"
+
+
+class MapV:
+    """finite map of symbolic contents: domain array key -> Bool and value array key -> val"""
+
+    def __init__(self, dom, val, key_t, val_t):
+        self.dom, self.val, self.key_t, self.val_t = dom, val, key_t, val_t
+
+    def snapshot(self):
+        return MapV(self.dom, self.val, self.key_t, self.val_t)
+
+    def __repr__(self):
+        return f"MapV({self.dom}, {self.val})"
 
 
 class UFunc:
@@ -256,6 +294,16 @@ class World:
         self.extra_builtins = extra_builtins or {}
         self.modular = modular or {}      # qualname -> CalleeContract
         self.tuple_dts = {}
+        self.theories = {}                # element sort name -> axiomatic sequence theory (axioms assumed on every path)
+
+    def aseq(self, elem: "T"):
+        es = self.sort_of(elem)
+        if es.name() not in self.theories:
+            self.theories[es.name()] = AQ.THEORIES.get(f"ASeq_{es.name()}") or AQ.ASeq(es)
+        return self.theories[es.name()]
+
+    def seq_sort(self, elem: "T", ax=False):
+        return self.aseq(elem).sort if ax else z3.SeqSort(self.sort_of(elem))
 
     def sort_of(self, t: T):
         if t.kind == "int":
@@ -269,7 +317,9 @@ class World:
         if t.kind == "rec":
             return self.classes[t.args[0]].datatype(self)
         if t.kind == "seq":
-            return z3.SeqSort(self.sort_of(t.args[0]))
+            return self.seq_sort(t.args[0], t.kw.get("ax", False))
+        if t.kind == "set":
+            return z3.ArraySort(self.sort_of(t.args[0]), z3.BoolSort())
         if t.kind == "tuple":
             key = tuple(repr(a) for a in t.args)
             if key not in self.tuple_dts:
@@ -305,6 +355,8 @@ class World:
                 return v.term
             if isinstance(v, (PyList, tuple)):
                 items = v.items if isinstance(v, PyList) else v
+                if t.kw.get("ax"):
+                    return self.aseq(t.args[0]).of([self.box(x, t.args[0]) for x in items])
                 return seq_of([self.box(x, t.args[0]) for x in items], self.sort_of(t.args[0]))
         raise Unsupp(f"boxing as {t}")
 
@@ -322,6 +374,8 @@ class World:
             return tuple(self.unbox(dt.accessor(0, i)(term), a) for i, a in enumerate(t.args))
         if t.kind == "seq":
             return SeqV(term, t.args[0])
+        if t.kind == "set":
+            return SetV(term, t.args[0])
         raise Unsupp(f"unboxing {t}")
 
 
@@ -372,7 +426,11 @@ def py_floordiv(a, b):
 
 def py_mod(a, b):
     a, b = to_int_term(a), to_int_term(b)
-    return a - b * py_floordiv(a, b)
+    if z3.is_int_value(b):
+        return a - b * py_floordiv(a, b)
+    # symbolic divisor: SMT-LIB mod (a = b*(a div b) + (a mod b), 0 <= a mod b < |b|) keeps the range facts linear;
+    # python's remainder takes the sign of the divisor:  b > 0: a mod b;   b < 0: -((-a) mod (-b))
+    return z3.If(b > 0, a % b, -((-a) % (-b)))
 
 
 def real_of(v):
@@ -413,6 +471,17 @@ class Ctx:
         self.ghost = {}
         self.float_ops = []        # float-producing operations seen on this path (exact_integer contracts flag them)
         self.havocked = False      # a loop cut / modular call replaced state by arbitrary values on this path
+        # with quantified theory axioms present, path feasibility is decided on the quantifier-free part of the path condition
+        # (fewer hypotheses: may keep an infeasible path, whose VCs are then vacuous -- never prunes a feasible one)
+        self.pure_vars = []        # bound variables of the quantified comprehension bodies being evaluated
+        self.qf_solver = None
+        if world.theories:
+            self.qf_solver = z3.Solver()
+            self.qf_solver.set("timeout", self.feas_timeout_ms)
+        for th in world.theories.values():
+            for ax in th.axioms:
+                self.solver.add(ax)
+                self.pc.append(ax)
 
     def fresh_name(self, base):
         return f"{base}!{next(self.counter)}"
@@ -424,6 +493,16 @@ class Ctx:
             raise PathEnd()
         self.pc.append(cond)
         self.solver.add(cond)
+        if self.qf_solver is not None and not has_quantifier(cond):
+            self.qf_solver.add(cond)
+
+    def _feasible(self, cond):
+        if self.qf_solver is not None:
+            t = time.time()
+            r = self.qf_solver.check(cond)
+            self.solver_time += time.time() - t
+            return r != z3.unsat
+        return self._check(cond) != z3.unsat
 
     def _check(self, *extra):
         t = time.time()
@@ -440,13 +519,15 @@ class Ctx:
             return True
         if z3.is_false(cond):
             return False
+        if self.pure_vars and mentions(cond, self.pure_vars):
+            raise Unsupp("path fork on the bound variable of a quantified comprehension (give the comprehension a loop contract)")
         if self.pos < len(self.prefix):
             d = self.prefix[self.pos]
         else:
             # feasibility is only an optimisation (an infeasible path has vacuous VCs): short budget, unknown = feasible
             self.solver.set("timeout", self.feas_timeout_ms)
-            can_t = self._check(cond) != z3.unsat
-            can_f = self._check(z3.Not(cond)) != z3.unsat
+            can_t = self._feasible(cond)
+            can_f = self._feasible(z3.Not(cond))
             self.solver.set("timeout", self.timeout_ms)
             if can_t and can_f:
                 self.forks.append(self.decisions + [False])
@@ -506,6 +587,39 @@ class Ctx:
         raise VCUnknown(label, detail=self.solver.reason_unknown())
 
 
+def mentions(f, consts):
+    ids = {c.get_id() for c in consts}
+    seen, stack = set(), [f]
+    while stack:
+        e = stack.pop()
+        i = e.get_id()
+        if i in ids:
+            return True
+        if i in seen:
+            continue
+        seen.add(i)
+        if z3.is_quantifier(e):
+            stack.append(e.body())
+        else:
+            stack.extend(e.children())
+    return False
+
+
+def has_quantifier(f, _seen=None):
+    seen = set() if _seen is None else _seen
+    stack = [f]
+    while stack:
+        e = stack.pop()
+        if z3.is_quantifier(e):
+            return True
+        i = e.get_id()
+        if i in seen:
+            continue
+        seen.add(i)
+        stack.extend(e.children())
+    return False
+
+
 def fresh_check(assertions, timeout_ms):
     try:
         s0 = z3.Solver()
@@ -550,7 +664,13 @@ def fresh(ctx: Ctx, t: T, name):
     if t.kind == "list":
         return PyList([fresh(ctx, t.args[0], f"{name}[{i}]") for i in range(t.args[1])])
     if t.kind == "seq":
-        return SeqV(z3.Const(ctx.fresh_name(name), z3.SeqSort(w.sort_of(t.args[0]))), t.args[0], t.kw.get("tuple", False))
+        return SeqV(z3.Const(ctx.fresh_name(name), w.sort_of(t)), t.args[0], t.kw.get("tuple", False))
+    if t.kind == "set":
+        return SetV(z3.Const(ctx.fresh_name(name), w.sort_of(t)), t.args[0])
+    if t.kind == "map":
+        ks, vs = w.sort_of(t.args[0]), w.sort_of(t.args[1])
+        return MapV(z3.Const(ctx.fresh_name(name + ".dom"), z3.ArraySort(ks, z3.BoolSort())),
+                    z3.Const(ctx.fresh_name(name + ".val"), z3.ArraySort(ks, vs)), t.args[0], t.args[1])
     if t.kind == "const":
         return t.args[0]
     if t.kind == "ufunc":
@@ -586,7 +706,22 @@ def concretize(world, v, model):
             return f"L{str(r).split('!')[-1]}"
         if z3.is_seq(r):
             return seq_model_to_list(world, r, model)
+        if is_aseq(v):
+            th = AQ.theory_of(v)
+            n = model.eval(th.LEN(v), model_completion=True).as_long()
+            return [model_term_to_py(world, model.eval(th.AT(v, z3.IntVal(k)), model_completion=True), model) for k in range(max(0, min(n, 12)))]
         return str(r)
+    if isinstance(v, SetV):
+        if v.term is None:
+            return {"__set__": []}
+        uni = model.get_universe(v.term.sort().domain()) or []
+        return {"__set__": [model_term_to_py(world, u, model) for u in uni
+                            if z3.is_true(model.eval(z3.Select(v.term, u), model_completion=True))]}
+    if isinstance(v, MapV):
+        uni = model.get_universe(v.dom.sort().domain()) or []
+        return {"__map__": [[model_term_to_py(world, u, model),
+                             model_term_to_py(world, model.eval(z3.Select(v.val, u), model_completion=True), model)] for u in uni
+                            if z3.is_true(model.eval(z3.Select(v.dom, u), model_completion=True))]}
     if isinstance(v, Rec):
         return {"__class__": v.cls.name, **{k: concretize(world, x, model) for k, x in v.f.items()}}
     if isinstance(v, tuple):
